@@ -563,7 +563,11 @@ func c13Tail(path string) string {
 			frame := ""
 			for _, m := range lines[i:] {
 				if strings.Contains(m, "github.com/ory/keto/") && !strings.Contains(m, "/verif/") && strings.HasPrefix(m, "github.com") {
-					frame = " at " + strings.TrimSpace(m)
+					frame = strings.TrimSpace(m)
+					if k := strings.LastIndex(frame, "("); k > 0 {
+						frame = frame[:k] // drop the argument words (addresses differ per run)
+					}
+					frame = " at " + frame
 					break
 				}
 			}
